@@ -75,8 +75,23 @@ def run(ctx):
             'var a\nvar b', 'var a = 1\n, b', 'throw\na', 'break\nx', 'for(a\n;b;c);', 'for(a;b\n;c);', 'a = b\n/c/d', 'a\n/re/.test(b)',
             'function f(){return\n}', 'continue\n', 'a\r\nb', 'a b', 'a b', '({}\n)', 'a;\n;b', 'if(a)\nelse b', 'while(a)\nb',
             'a\n.b', 'a\n,b', 'i\n--\nj', 'debugger\ndebugger', '{}\n[1]', 'x = function(){}\n(y)']
+    # a token that spans several lines is NOT a line terminator between its neighbours: no insertion after it
+    for lt in ('\n', '\r', '\r\n', '\u2028', '\u2029'):
+        hand += ["a = 'x\\%sy' b = 1" % lt, "a = 'x\\%sy'\nb = 1" % lt, "a = 'x\\%sy'; b = 1" % lt, "f('p\\%sq') g()" % lt,
+                 "var s = 'm\\%sn' var t" % lt, "return_ = 'x\\%sy' + 1 c" % lt]
     for h in hand:
         texts.append([('hand', h)])
+    # the converse direction: a semicolon omitted WITHOUT any line terminator must not be repaired
+    # (except before `}` and at the end of input); tokens joined by single spaces
+    for _ in range(ctx.n(120, 1200)):
+        g = genjs.Gen(rng, genjs.Opts(with_stmt=False, regex=False, max_depth=2, max_stmts=3))
+        toks = g.program()
+        idx = [i for i, t in enumerate(toks) if t.semi]
+        if not idx:
+            continue
+        i = rng.choice(idx)
+        ts = [t.text for k, t in enumerate(toks) if k != i]
+        texts.append([('omitted-no-newline', ' '.join(ts))])
     nvar = 0
     for vs in texts:
         ref_full = None
